@@ -60,6 +60,20 @@ func main() {
 				lf.Close()
 			}
 		}
+		// failure modes for the race pass: the process dies / breaks the protocol on a stream whose
+		// upper-cased client payload contains the given text
+		if v := os.Getenv("VCONV_DIE_ON"); v != "" && strings.Contains(strings.ToUpper(string(c)), v) {
+			fmt.Fprintf(os.Stderr, "dying on %s", meta)
+			os.Exit(3)
+		}
+		if v := os.Getenv("VCONV_BAD_ON"); v != "" && strings.Contains(strings.ToUpper(string(c)), v) {
+			fmt.Fprintf(os.Stderr, "breaking the protocol on %s", meta)
+			out.WriteString("{\"Direction\":\"sideways\",\"Content\":\"\",\"Time\":\"2020-01-01T00:00:00\"}\n\n")
+			out.WriteString(strings.TrimRight(meta, "\n"))
+			out.WriteByte('\n')
+			out.Flush()
+			continue
+		}
 		// the race pass wants the service's stderr reader goroutine to be busy
 		if os.Getenv("VCONV_STDERR") != "" {
 			fmt.Fprintf(os.Stderr, "converted %s", meta)
